@@ -65,7 +65,11 @@ def alpha_value(value):
         if value.endswith('%'):
             ratio = 100
             value = value[:-1].strip()
-    return min(1, max(0, float(value) / ratio))
+    try:
+        return min(1, max(0, float(value) / ratio))
+    except ValueError:
+        # Invalid values are ignored: opacity is 1
+        return 1
 
 
 def point(svg, string, font_size):
